@@ -27,6 +27,10 @@ def lib(name):
     return importlib.import_module('elftools.' + name if name else 'elftools')
 
 
+class AllocBudgetExceeded(BaseException):
+    """the library asked for a sequence larger than the allocation limit its harness set"""
+
+
 class DecoyStop(Exception):
     """the decoy run cannot continue (an assumption of its instance is not satisfiable on the chosen path); the real run follows"""
 
